@@ -28,7 +28,9 @@ var (
 func mk(v *big.Int) *SC {
 	s, err := secp256k1.NewScalarFromCanonicalBytes(ref.A32(v))
 	if err != nil {
-		panic("mk: canonical value rejected: " + v.Text(16))
+		R.Fail("scalar/SetCanonicalBytes rejects a canonical value", "decode", map[string]any{"bytes": mc.HexBig(v), "mismatch": "canonical value in [0,n) rejected: " + err.Error()}, nil)
+		s = secp256k1.NewScalar()
+		secp256k1.VerifScalarSetLimbs(s, bigLimbs(ref.ZnMul(v, ref.R256)))
 	}
 	return s
 }
@@ -736,6 +738,16 @@ func exploreDecode(sc []mc.Val) {
 	R.Cap(fmt.Sprintf("the non-canonical window [n,2^256) has 2^128.4 members and cannot be exhausted: covered are bands of %d at each end, all delta of Hamming weight <= 2, and structured values", band))
 	for _, dl := range hw2(d) {
 		add(new(big.Int).Add(ref.N, dl))
+	}
+	// limb-structured values: n - 2^k, 2^256-1-2^k, 2^k, 2^k-1, n + 2^k for every k (the range check is a
+	// multi-limb borrow chain)
+	for k := uint(0); k < 256; k++ {
+		p2 := new(big.Int).Lsh(big.NewInt(1), k)
+		add(new(big.Int).Sub(ref.N, p2))
+		add(new(big.Int).Sub(new(big.Int).Sub(ref.R256, big.NewInt(1)), p2))
+		add(p2)
+		add(new(big.Int).Sub(p2, big.NewInt(1)))
+		add(new(big.Int).Add(ref.N, p2))
 	}
 	top := new(big.Int).Sub(ref.R256, big.NewInt(1))
 	var n int64
